@@ -87,7 +87,7 @@ pub proof fn lemma_forward_step(ms: Seq<DltMessage>, sel: Seq<bool>, outs: Seq<D
 //@   sub R12 `Result<Vec<Box<dyn Plugin + Send>>, SendError<DltMessage>>` => `Result<Vec<P>, DltMessage>`
 //@   sub R13 `for mut msg in inflow {` => `loop { let mut msg = match inflow.recv() { Ok(vx_m) => vx_m, Err(_) => break };`
 //@   sub R12 `let plugin = plugin.as_mut();` => ``
-//@   sub R12 `outflow(msg)?` => `outflow.send(msg)?`
+//@   sub R12 `outflow(_id_)` => `outflow.send($1)` *
 //@   r13 2
 //@   spec
 //@|    ensures
